@@ -343,8 +343,33 @@ class C08(Prop):
                         outcome = "ran:" + str(err)
                 except Exception as e:
                     outcome = classify(e)
+            calls, events, shutdowns = len(env.log) - start, len(rec.events), rec.shutdowns
+            # the same call made through map(): one supplied input carries a 2-element list and is mapped over; in the omit trials the
+            # mapped-over name is, every other time, the omitted input itself
+            rec2 = impl.Recorder()
+            start2 = len(env.log)
+            kw2 = dict(kwargs, event_processors=[rec2])
+            names = [k for k, _ in t["values"]]
+            self._n_map = getattr(self, "_n_map", 0) + 1
+            over = t["omit"] if (t["omit"] is not None and self._n_map % 2 == 0) else (names[self._n_map % len(names)] if names else None)
+            map_outcome = None
+            if over is not None:
+                mvals = {k: ([v, v] if k == over else v) for k, v in vals.items()}
+                mode = "continue" if self._n_map % 3 == 0 else "raise"
+                with warnings.catch_warnings():
+                    warnings.simplefilter("ignore")
+                    try:
+                        if case["runner"] == "sync":
+                            rs = SyncRunner().map(g, mvals, map_over=over, error_handling=mode, **kw2)
+                        else:
+                            rs = asyncio.run(AsyncRunner().map(g, mvals, map_over=over, error_handling=mode, **kw2))
+                        errs = [type(x.error).__name__ for x in rs if x.error is not None]
+                        map_outcome = "MissingInputError" if rs and len(errs) == len(rs) and set(errs) == {"MissingInputError"} else "ran"
+                    except Exception as e:
+                        map_outcome = classify(e)
             trials.append({"omit": t["omit"], "values": t["values"], "entrypoint": kwargs.get("entrypoint"), "outcome": outcome, "produced": produced if outcome == "ran" else None,
-                           "calls": len(env.log) - start, "events": len(rec.events), "shutdowns": rec.shutdowns})
+                           "calls": calls, "events": events, "shutdowns": shutdowns,
+                           "map": None if map_outcome is None else {"over": over, "outcome": map_outcome, "calls": len(env.log) - start2, "events": len(rec2.events), "shutdowns": rec2.shutdowns}})
         obs["trials"] = trials
         # history: derive graphs from the one that has just been run (same run-time select) and check their contract too
         derived = []
@@ -426,6 +451,8 @@ class C08(Prop):
                 return f"after bind({r0}=...) the run with every other required input supplied was rejected with MissingInputError" + inote
             if kind == "unbind-then-omit" and outcome != "MissingInputError":
                 return f"after bind({r0}=...).unbind({r0!r}) omitting the again-required {r0!r} was not rejected (outcome {outcome})" + inote
+        # map() is judged only where the complete call is accepted through map() as well (map() refuses some graphs altogether)
+        map_ok = any(t["omit"] is None and t["outcome"] == "ran" and (t.get("map") or {}).get("outcome") == "ran" for t in obs["trials"])
         for t in obs["trials"]:
             if t["omit"] is None:
                 if t["outcome"] == "MissingInputError":
@@ -450,6 +477,14 @@ class C08(Prop):
                     return f"required input {t['omit']!r} omitted but the call was not rejected with MissingInputError (outcome {t['outcome']})" + (note or inote)
                 if t["calls"] or t["events"] or t["shutdowns"]:
                     return f"rejected call invoked {t['calls']} node functions and delivered {t['events']} events / {t['shutdowns']} shutdowns"
+                m = t.get("map")
+                if m is not None and map_ok:
+                    if m["outcome"] != "MissingInputError":
+                        return (f"required input {t['omit']!r} omitted in a map() call (map_over={m['over']!r}) but the call was not rejected with "
+                                f"MissingInputError (outcome {m['outcome']})")
+                    if m["calls"] or m["events"] or m["shutdowns"]:
+                        return (f"map() call rejected for the omitted {t['omit']!r} (map_over={m['over']!r}) invoked {m['calls']} node functions and delivered "
+                                f"{m['events']} events / {m['shutdowns']} shutdowns before rejecting")
         return None
 
     # ---------------------------------------------------------------- model side
